@@ -184,7 +184,7 @@ def saveStr : Except Err SaveKind → String
 def traceStr (o : ReqOut) : String :=
   let k := match o.saved with
     | .error e => "err:" ++ errStr e
-    | .ok .cleared => "cleared" | .ok .untouched => "untouched" | .ok .written => "written"
+    | .ok .cleared => "cleared" | .ok .untouched => "untouched" | .ok (.written _) => "written"
   let l := match o.reads with
     | .error _ => "loaderr"
     | .ok r => if r.data.isEmpty then "empty" else "loaded"
